@@ -71,7 +71,7 @@ def r1(report, db, cg, M):
     pk = db.get_class(PACKET, 'Packet')
     wp = M.conn_method('_write_packet')
     uses = conn_attr_uses(db, cg, M, 'socket', aliases=True)
-    report.floor('uses of connection.socket', len(uses), 10)
+    report.floor('uses of connection.socket', len(uses), 6)
     for fi, node in uses:
         par = M.parents(fi)
         p = par.get(id(node))
@@ -153,7 +153,7 @@ def r1(report, db, cg, M):
                     '%s is called outside Connection._write_packet: the '
                     'frame bypasses the lock and the listeners'
                     % t.qualname)
-    report.floor('call sites of Packet.write', n, 2)
+    report.floor('call sites of Packet.write', n, 1)
     # two consecutive sends
     wb = db.own_method(pk, '_write_buffer')
     if wb is None:
@@ -305,16 +305,18 @@ def r3(report, db, cg, M):
             if m == 'append' and fi is wpk:
                 report.ok(R, 'write_packet: append (FIFO tail)')
             elif m == 'popleft' and fi is pop:
-                # popped element goes straight to the frame writer
-                pp = par.get(id(call))
-                if isinstance(pp, ast.Call) and [x for x, _, _ in
-                                                 cg.callee_funcs(fi, pp)] \
-                        == [wp]:
+                # popped element goes straight to the frame writer, on the
+                # path summaries of _pop_packet: every path that pops and
+                # does not raise hands exactly that value, once, to
+                # _write_packet and uses it for nothing else
+                why = pop_use(db, cg, pop, wp)
+                if why is None:
                     report.ok(R, '_pop_packet: popleft -> _write_packet')
                 else:
                     report.violation(R, 'queue:pop-use', fi.path, call,
                                      fi.qualname, 'the popped packet is not '
-                                     'handed directly to _write_packet')
+                                     'handed directly to _write_packet (%s)'
+                                     % why)
             elif m in ('append', 'popleft'):
                 report.violation(R, 'queue:%s:%s' % (m, fi.qualname),
                                  fi.path, call, fi.qualname,
@@ -335,6 +337,46 @@ def r3(report, db, cg, M):
             report.violation(R, 'queue:use:%s' % fi.qualname, fi.path, node,
                              fi.qualname, 'unexpected use of the queue: %s'
                              % ast.unparse(p)[:60])
+
+
+def pop_use(db, cg, pop, wp):
+    from .. import shared
+    from ..pathsum import subterms
+    S = shared.summariser(db, cg, opaque=[wp])
+    npop = 0
+    for p in S.run(pop):
+        evs = p.flat(('call', 'store', 'setitem'))
+        pops = [e for e in evs if e.kind == 'call' and e.method() == 'popleft']
+        if not pops:
+            if any(e.kind == 'call' and e.calls(wp) for e in evs):
+                return 'writes a packet that was not popped'
+            continue
+        if len(pops) > 1:
+            return 'pops twice on one path'
+        if pops[0].raised:
+            continue            # nothing was popped: the queue was empty
+        npop += 1
+        r = pops[0].res
+        writes = [e for e in evs if e.kind == 'call' and e.calls(wp)]
+        after = evs[evs.index(pops[0]) + 1:]
+        if len(writes) != 1 or [a for a in writes[0].args
+                                if a != writes[0].args[0]] or \
+                writes[0].args[-1] != r:
+            return 'popped on a path that does not write exactly it [%s]' \
+                % p.cond_text()
+        for e in after:
+            if e is writes[0]:
+                continue
+            used = [t for t in list(e.args or ()) + [v for _, v in (
+                e.kwargs or ())] + [e.value] if t is not None
+                and any(x == r for x in subterms(t))]
+            if used:
+                return 'the popped packet is also used by %r' % e
+        if p.returns and any(x == r for x in subterms(p.value)):
+            return 'the popped packet is returned'
+    if not npop:
+        return 'no path pops'
+    return None
 
 
 # ---------------------------------------------------------------------------
